@@ -1162,7 +1162,18 @@ def expand_macro_fn(rel, macro, first_arg):
 def gen_macrofn(d):
     rel, macro, first = d.args[0], d.args[1], d.args[2]
     o = opts(d.args[3:])
-    fn_text, line, orig = expand_macro_fn(rel, macro, first)
+    try:
+        fn_text, line, orig = expand_macro_fn(rel, macro, first)
+    except GenError as e:
+        if 'lost anchor: %s!(%s' % (macro, first) not in str(e):
+            raise
+        # the setter is no longer generated by the macro: when a hand-written function of that name exists in the impl block, it is
+        # the code that runs now - it is extracted as an ordinary function and must meet the same contract
+        d2 = Directive('fn', [rel, o.get('impl', 'impl~BaseSettings'), first] + [a for a in d.args[3:] if not a.startswith('impl=')], d.lineno)
+        d2.rws, d2.splices, d2.contract = d.rws, d.splices, d.contract
+        text, meta = gen_fn(d2)
+        meta['rules'] = [('R7f', '%s!(%s, ..)' % (macro, first), 'macro invocation gone: hand-written fn %s extracted instead' % first)] + list(meta.get('rules', []))
+        return text, meta
     log = [('R7m', '%s!(%s, ..)' % (macro, first), 'textual expansion of the single-arm macro')]
     fn_text = r0_drop(fn_text, log)
     # split signature / body
